@@ -580,7 +580,14 @@ class Interp:
                     v = S.add(T.scale(st.const()))
             self.env[("i", I.id)] = v
         if exiting != hdr:
-            raise Broken("D-COV: bottom-tested loop in %s (only while-shaped loops of the source-level IR are supported)" % f.name)
+            # bottom-tested (do/while) loop: the body ran btc + 1 times (accounted for above).  Values defined inside the loop are
+            # not tracked beyond it: anything after the loop that needs one is undecided there (None), never guessed
+            if exiting not in L["latches"]:
+                raise Broken("D-COV: loop in %s leaves from the middle of its body: unsupported shape" % f.name)
+            for b in L["blocks"]:
+                for iid in f.blocks[b].insts:
+                    self.env[("i", iid)] = None
+            return L["exits"][0], exiting
         # evaluate the rest of the header block with the exit values, then leave through the exit edge
         for iid in f.blocks[hdr].insts:
             I = f.insts[iid]
